@@ -284,7 +284,9 @@ class ForwardScheduler(IScheduler):
             return
 
         for pred in _task.predecessors:
-            self.__forward_pass(pred, min_date, resource_usage, calculated)
+            # Tasks outside scheduled WBS have fixed dates and must not be touched
+            if pred.wbs == _task.wbs:
+                self.__forward_pass(pred, min_date, resource_usage, calculated)
 
         max_predecessor_ends = max([t.end for t in _task.predecessors if t.end is not None] + [min_date])
 
@@ -457,7 +459,9 @@ class BackwardScheduler(IScheduler):
             return
 
         for pred in _task.successors:
-            self.__backward_pass(pred, min_date, resource_usage, calculated)
+            # Tasks outside scheduled WBS have fixed dates and must not be touched
+            if pred.wbs == _task.wbs:
+                self.__backward_pass(pred, min_date, resource_usage, calculated)
 
         min_successor_starts = min([t.start for t in _task.successors if t.start is not None] + [min_date])
 
